@@ -115,12 +115,14 @@ def run_property(prop: str, tier: str) -> int:
     for ob, k in known_hits:
         if k["key"] not in printed:
             printed.add(k["key"])
-            # a known finding is reported only while it still reproduces on the real code
+            # the listed finding is reported while its obligation is still refuted; the replay says whether the
+            # witness search reproduces a failing input on the real code
+            suffix = ""
             if ob.witness and ob.witness.get("family"):
                 _path, reproduced, _out = write_replay(prop, ob)
                 if not reproduced:
-                    continue
-            print(f"KNOWN-FINDING: property={prop} {k['what']}")
+                    suffix = " [obligation refuted; no-failing-input-found by the witness search]"
+            print(f"KNOWN-FINDING: property={prop} {k['what']}{suffix}")
     vio_out = []
     for ob in violations[:12]:
         path, reproduced, out = write_replay(prop, ob)
